@@ -16,6 +16,7 @@ import (
 
 	"github.com/dominant-strategies/go-quai/common"
 	"github.com/dominant-strategies/go-quai/core"
+	"github.com/dominant-strategies/go-quai/core/rawdb"
 	"github.com/dominant-strategies/go-quai/core/types"
 	"pgregory.net/rapid"
 
@@ -114,8 +115,33 @@ func TestC11_CrashPoints(t *testing.T) {
 			}
 			return b
 		}
+		// half of the histories aim the window at a block that trims stored outputs: the warm-up then
+		// carries Qi traffic that leaves small zero-lock outputs behind and runs until the next block
+		// is the one that trims the oldest of them
+		trimMode := rapid.Bool().Draw(t, "trimWindow")
 		for i, k := 0, rapid.IntRange(0, 8).Draw(t, "warmup"); i < k; i++ {
+			if trimMode {
+				if err := a.Adopt(); err != nil {
+					t.Fatalf("HARNESS: adopt: %v", err)
+				}
+				a.QiTraffic(t)
+			}
 			step(a, -1)
+		}
+		if trimMode {
+			for i := 0; i < 14; i++ {
+				if err := a.Adopt(); err != nil {
+					t.Fatalf("HARNESS: adopt: %v", err)
+				}
+				due, any := a.TrimDue()
+				if any && due == 0 {
+					break
+				}
+				if !any {
+					a.QiTraffic(t)
+				}
+				step(a, -1)
+			}
 		}
 		if err := a.Adopt(); err != nil {
 			t.Fatalf("HARNESS: adopt: %v", err)
@@ -179,6 +205,29 @@ func TestC11_CrashPoints(t *testing.T) {
 		labels := []string{}
 		if reorg {
 			labels = append(labels, "reorg_in_window")
+		}
+		trims, qitx, uncles := false, false, false
+		for _, b := range window {
+			if tr, _ := rawdb.ReadTrimmedUTXOs(n.Nodes[sim.Zone].DB, b.Zone().Hash()); len(tr) > 0 {
+				trims = true
+			}
+			for _, tx := range b.Zone().Transactions() {
+				if tx.Type() == types.QiTxType {
+					qitx = true
+				}
+			}
+			if len(b.Zone().Uncles()) > 0 {
+				uncles = true
+			}
+		}
+		if trims {
+			labels = append(labels, "window_trims_outputs")
+		}
+		if qitx {
+			labels = append(labels, "window_has_qi_tx")
+		}
+		if uncles {
+			labels = append(labels, "window_has_uncles")
 		}
 		stats.Label(part, "crash_points")
 		for i := lo; i < hi; i++ {
